@@ -53,6 +53,8 @@ type C03X struct {
 	AI  []int
 	MI  map[string]int
 	MK  map[int]string
+	MS  map[string][]int
+	MM  map[string]map[string]int
 	M   C03MyInt
 	N   C03MyInt
 	PI  *int
@@ -68,7 +70,7 @@ type C03X struct {
 
 func c03XEnv(variant int) *C03X {
 	one := 1
-	e := &C03X{I: 3, I8: 4, F64: 1.5, B: true, S: "s", AI: []int{1, 2, 3}, MI: map[string]int{"a": 1}, MK: map[int]string{1: "x"},
+	e := &C03X{I: 3, I8: 4, F64: 1.5, B: true, S: "s", AI: []int{1, 2, 3}, MI: map[string]int{"a": 1}, MK: map[int]string{1: "x"}, MS: map[string][]int{"a": {1, 2}}, MM: map[string]map[string]int{"x": {"k": 1}},
 		M: 1, N: 2, PI: &one, St: Inner{X: 1, Y: "st", Next: &Inner{X: 2, Y: "n"}}, P: &Inner{X: 7, Y: "p", Next: &Inner{X: 8}}, Any: "str"}
 	if variant == 1 {
 		e.B, e.I, e.AI, e.Any, e.P, e.M = false, 0, []int{}, 2.5, nil, 1
@@ -89,6 +91,9 @@ var c03Probes = []string{
 	`AI["a"]`, `AI[1]`, `MI[1]`, `MI["a"]`, `MK[1]`, `MK["a"]`, `1 in MI`, `"a" in MI`, `1 in MK`, `MI[1:2]`, `AI[0:1]`, `MK.foo`, `MI.foo`,
 	`Ints(filter(AI, {# > 0}))`, `Ints(map(AI, {# + 1}))`, `Ints(AI)`, `filter(AI, {# > 0})`, `map(AI, {# + 1})`, `filter(AI, {# > 0})[0] + 1`, `len(filter(AI, {# > 0}))`,
 	`PI + 1`, `PI == 1`, `PI < 2`, `-PI`, `Inc(PI)`,
+	// members of maps whose ELEMENT type is a slice / map / pointer, present and ABSENT keys (an absent key yields the typed zero value)
+	`MS.a`, `MS.zz`, `MS["zz"]`, `len(MS.zz)`, `len(MS.a)`, `all(MS.zz, {# > 0})`, `Ints(MS.zz)`, `Ints(MS.a)`, `MS.zz[0:0]`, `MM.x.k`, `MM.y.k`, `MM.y`, `len(MM.y)`,
+
 	`Inc(nil)`, `Concat(nil, "a")`, `Ints(nil)`,
 	`P.X`, `P?.X + 1`, `St.Next.X`, `P.Next.Y`, `St.X + P.X`,
 	`I + I8`, `I8 + 1`, `I + F64`, `I8 * F64`, `I % 2`, `I ** 2`, `1..I`, `-I8`,
@@ -1680,6 +1685,26 @@ func runC03() {
 					}
 					fail(Failure{Key: keyOf("C03-result-type"), What: "the dynamic type of the result is not the type the checker reported",
 						Input: in, Want: fmt.Sprint(want), Got: fmt.Sprint(dt)})
+				}
+			}
+			// the reported type also describes what the OPTIMIZED program returns (judged for scalar result types only: the typed
+			// slice constants the optimizer builds are C02's findings)
+			if d == "" && t != nil && isOrig {
+				switch t.Kind() {
+				case reflect.Bool, reflect.String, reflect.Int, reflect.Int8, reflect.Int16, reflect.Int32, reflect.Int64, reflect.Uint, reflect.Uint8, reflect.Uint16,
+					reflect.Uint32, reflect.Uint64, reflect.Float32, reflect.Float64:
+					ops := append(append([]expr.Option{}, c03Options(w, d)...), expr.Optimize(true))
+					if popt, oerr := c03SafeCompile(it.src, ops); oerr == nil {
+						r := runProgram(popt, w.envs[0])
+						rep.Evaluations++
+						rep.hist("run of the optimized program")
+						if r.err == nil && reflect.TypeOf(r.out) != t {
+							in := input
+							in.Mutation = "optimizer on"
+							fail(Failure{Key: keyOf("C03-result-type"), What: "the dynamic type of the OPTIMIZED program's result is not the type the checker reported",
+								Input: in, Want: fmt.Sprint(t), Got: fmt.Sprint(reflect.TypeOf(r.out))})
+						}
+					}
 				}
 			}
 		}
